@@ -142,6 +142,63 @@ def t_rename(src):
     return ast.unparse(t) + '\n'
 
 
+class _GuardClause(ast.NodeTransformer):
+    """def f(): ...; if c: BODY   (last statement, no else, BODY without a bare fall-through need)  ->  ...; if not c: return; BODY"""
+
+    def visit_FunctionDef(self, node):
+        self.generic_visit(node)
+        if any(isinstance(n, (ast.Yield, ast.YieldFrom)) for n in ast.walk(node)):
+            return node
+        body = node.body
+        if body and isinstance(body[-1], ast.If) and not body[-1].orelse and len(body[-1].body) >= 2:
+            t = body[-1]
+            neg = t.test.operand if isinstance(t.test, ast.UnaryOp) and isinstance(t.test.op, ast.Not) else ast.UnaryOp(op=ast.Not(), operand=t.test)
+            g = ast.copy_location(ast.If(test=neg, body=[ast.copy_location(ast.Return(value=None), t)], orelse=[]), t)
+            node.body = body[:-1] + [g] + t.body
+        return node
+
+
+def t_guard(src):
+    t = _GuardClause().visit(ast.parse(src))
+    ast.fix_missing_locations(t)
+    return ast.unparse(t) + '\n'
+
+
+class _ElifNest(ast.NodeTransformer):
+    """elif chains written as nested else: if (ast.unparse prints a lone If in orelse as elif, so a pass statement is added)"""
+
+    def visit_If(self, node):
+        self.generic_visit(node)
+        if len(node.orelse) == 1 and isinstance(node.orelse[0], ast.If):
+            node.orelse = [ast.copy_location(ast.Pass(), node.orelse[0]), node.orelse[0]]
+        return node
+
+
+def t_elif(src):
+    t = _ElifNest().visit(ast.parse(src))
+    ast.fix_missing_locations(t)
+    return ast.unparse(t) + '\n'
+
+
+class _IfExpAssign(ast.NodeTransformer):
+    """if c: x = a else: x = b   ->   x = a if c else b      (single plain assignments to the same name in both arms)"""
+
+    def visit_If(self, node):
+        self.generic_visit(node)
+        if len(node.body) == 1 and len(node.orelse) == 1 and all(isinstance(s_, ast.Assign) and len(s_.targets) == 1 and
+                                                                 isinstance(s_.targets[0], ast.Name) for s_ in (node.body[0], node.orelse[0])) \
+                and node.body[0].targets[0].id == node.orelse[0].targets[0].id:
+            return ast.copy_location(ast.Assign(targets=[ast.Name(id=node.body[0].targets[0].id, ctx=ast.Store())],
+                                                value=ast.IfExp(test=node.test, body=node.body[0].value, orelse=node.orelse[0].value)), node)
+        return node
+
+
+def t_ifexp(src):
+    t = _IfExpAssign().visit(ast.parse(src))
+    ast.fix_missing_locations(t)
+    return ast.unparse(t) + '\n'
+
+
 def main():
     import json
     props = [c['property_id'] for c in json.load(open(os.path.join(HERE, 'MANIFEST.json')))['checks']]
@@ -152,7 +209,7 @@ def main():
     ponly = [a for a in sys.argv[1:] if a.startswith('C') and a[1:].isdigit()]
     if ponly:
         props = ponly
-    for name, fn in (('reformat', t_reformat), ('shift', t_shift), ('logging', t_logging), ('swapif', t_swapif), ('retvar', t_retvar), ('rename', t_rename)):
+    for name, fn in (('reformat', t_reformat), ('shift', t_shift), ('logging', t_logging), ('swapif', t_swapif), ('retvar', t_retvar), ('rename', t_rename), ('guard', t_guard), ('elif', t_elif), ('ifexp', t_ifexp)):
         if only and name not in only:
             continue
         overlay = {k: fn(v) for k, v in src.items()}
